@@ -1,4 +1,5 @@
 SPECIFICATION Spec
 INVARIANT Conforms
+INVARIANT DesignAgrees
 POSTCONDITION AcceptedLinear
 CHECK_DEADLOCK FALSE
